@@ -109,7 +109,8 @@ func (encryptor *HashQuery) OnQuery(ctx context.Context, query postgresql.OnQuer
 		}
 
 		err := postgresql.UpdateExpressionValue(ctx, aConst, encryptor.coder, item.Setting, encryptor.calculateHmac)
-		if err != nil {
+		// a value that is searched as it is (empty value) must not stop the rewriting of the other comparisons
+		if err != nil && err != postgresql.ErrUpdateLeaveDataUnchanged {
 			logrus.WithError(err).Debugln("Failed to update expression")
 			return query, false, err
 		}
